@@ -86,3 +86,23 @@ def declare(S: Spec):
                 11: dict(idx="k", header="for j in to_remove",
                          inv=Q + [A, PQ, "queues is pool_queues[pool_id]", "0 <= pool_id and pool_id < 2"]),
                 12: dict(idx="k", header="for a in new_assignments", inv=[])})
+
+
+def declare4(S: Spec):
+    """monitor-only clauses of the priority-pool scheduler (bounded; the retry clauses are not discharged deductively)"""
+    c = S.fns[f"{MPP}:priority_pool_scheduler"]
+    S.pred("PPHalfOrMore", [("s", Ref("Scheduler")), ("f", Ref("ExecutionResult"))],
+           "(f.priority != Priority.BATCH_PIPELINE and (rdiv(2 * f.cpu, s.executor.pools[0].max_cpu_pool) >= 0.5"
+           " or rdiv(2 * f.ram, s.executor.pools[0].max_ram_pool) >= 0.5))"
+           " or (f.priority == Priority.BATCH_PIPELINE and (rdiv(2 * f.cpu, s.executor.pools[1].max_cpu_pool) >= 0.5"
+           " or rdiv(2 * f.ram, s.executor.pools[1].max_ram_pool) >= 0.5))")
+    UNF = "[op for op in f.ops if op.pipeline._runtime_status.operator_states[op] != OperatorState.COMPLETED]"
+    c.native_ensures += [
+        ("after-an-oom-exactly-the-unfinished-operators-are-retried-together",
+         f"C16| all(implies(f.error is not None, any(j.ops == {UNF} for j in s.qry_jobs) or any(j.ops == {UNF} for j in s.interactive_jobs)"
+         f" or any(j.ops == {UNF} for j in s.batch_ppln_jobs) or any(a.ops == {UNF} for a in result[1]) or PPHalfOrMore(s, f)) for f in results)"),
+        ("a-retry-reaching-half-of-the-pool-is-abandoned",
+         f"C16| all(implies(f.error is not None and PPHalfOrMore(s, f), not any(a.ops == {UNF} for a in result[1])) for f in results)"),
+        ("retries-stay-in-their-pool",
+         "C16| all(implies(a.priority == Priority.BATCH_PIPELINE, a.pool_id == 1) and implies(a.priority != Priority.BATCH_PIPELINE, a.pool_id == 0) for a in result[1])"),
+    ]
